@@ -11,7 +11,7 @@ CONSTANTS
   InputSeqs <- MCInputSeqs
   Cfgs <- MCCfgs
   Langs <- MCLangs
-  ExtraInput <- MCExtra
+  ExtraInputs <- MCExtra
 SPECIFICATION Spec
 VIEW view
 INVARIANTS EmitWitness
